@@ -43,6 +43,7 @@ ConfR(hc, order, lc, ct, sb) == [hc |-> [h \in H |-> IF h \in DOMAIN hc THEN hc[
                                  res |-> [ssub |-> sb, vals |-> {1, 2}, ev |-> "off"]]
 ConfRE(hc, order, lc, ct, sb, ev) == [ConfR(hc, order, lc, ct, sb) EXCEPT !.res.ev = ev, !.res.vals = {}]
 Confs_res_ev == {ConfRE(HC_ab, Order_ab, lc, 2, sb, ev) : lc \in {"one", "asap"}, sb \in BOOLEAN, ev \in {"mirror", "const"}}
+Confs_f38 == {ConfRE(HC_ad, <<"a", "d">>, "asap", 2, sb, ev) : sb \in BOOLEAN, ev \in {"mirror", "const"}}
 Confs_res == {ConfR(HC_ab, Order_ab, lc, 2, sb) : lc \in {"one", "asap"}, sb \in BOOLEAN}
 Confs_res_ad == {ConfR(HC_ad, <<"a", "d">>, "asap", 2, sb) : sb \in BOOLEAN}
 F36Code == TRUE       \* the code before fix F36: the version a patch returns is expected even if it is the one already seen
